@@ -195,7 +195,7 @@ func c10fieldStores(c *Ctx, p *pkgT, reg *projReg) {
 		}
 		fns = append(fns, f)
 	}
-	sort.Slice(fns, func(i, j int) bool { return c.P.Decl(fns[i]).Pos() < c.P.Decl(fns[j]).Pos() })
+	sort.Slice(fns, func(i, j int) bool { return c.P.PosLess(c.P.Decl(fns[i]).Pos(), c.P.Decl(fns[j]).Pos()) })
 	for _, f := range fns {
 		fd := c.P.Decl(f)
 		// stores inside nested closures belong to the closures (checked by R1a/R1b)
@@ -385,19 +385,22 @@ func c10saveRestore(info *types.Info, fd *ast.FuncDecl, at ast.Stmt, lhs ast.Exp
 	// restore: a later top-level statement lhs = v where v's single def is lhs
 	for _, st := range fd.Body.List {
 		as, ok := st.(*ast.AssignStmt)
-		if !ok || len(as.Lhs) != 1 || len(as.Rhs) != 1 || as.Pos() <= at.Pos() && as != at {
+		if !ok || len(as.Lhs) != len(as.Rhs) || as.Pos() <= at.Pos() && as != at {
 			continue
 		}
-		if !sameExpr(info, as.Lhs[0], lhs) {
-			continue
-		}
-		o := objOf(info, as.Rhs[0])
-		if o == nil {
-			continue
-		}
-		if d := sc.singleDef(o); d != nil && sameExpr(info, d, lhs) {
-			// the restore itself, or a store followed by it
-			return true
+		// single or parallel assignment: the position that stores into lhs
+		for i := range as.Lhs {
+			if !sameExpr(info, as.Lhs[i], lhs) {
+				continue
+			}
+			o := objOf(info, as.Rhs[i])
+			if o == nil {
+				continue
+			}
+			if d := sc.singleDef(o); d != nil && sameExpr(info, d, lhs) {
+				// the restore itself, or a store followed by it
+				return true
+			}
 		}
 	}
 	return false
